@@ -62,6 +62,12 @@ def build(case):
         V, _, _, _ = zoo.apply_placement(case["place"], zoo.build_convex(case["cvx"])["verts"])
         V = V * 10.0 ** case.get("xs", 0.0)  # optional extreme uniform scale (length units of 1e-9 .. 1e6)
         size = 2 * float(np.max(np.linalg.norm(V - V.mean(axis=0), axis=1)))
+        if case.get("nudge"):
+            # almost - but not quite - centred on the origin: centroid a few 1e-9 sizes away ("is it at the origin?"
+            # tests with an absolute tolerance must not take it for centred)
+            from oracle import geom
+
+            V = V - geom.mesh_moments(V, geom.convex_facets(V)[0])["centroid"] + case["nudge"] * size * np.array([3.0, -2.0, 1.0])
         r = 10.0 ** case["radius"] * size
         if kind == "ConvexPolyhedron":
             return S.ConvexPolyhedron(V.copy())
